@@ -25,6 +25,7 @@ func init() {
 			"R3 every smpeer.NewContext call in the library flows into Conn.SetContext and is dominated by the nil-error edge of a CER/CEA Parse call — and, on the server side, by the nil-error edge of the function that writes the success CEA; " +
 			"R4 StateMachine.HandleFunc/HandleIdx cannot reach their registration for the keys CER, CEA, DWR / (0,257,R), (0,257,A), (0,280,R). " +
 			"R5 the state machine's own ServeDIAM hands every message, with the same connection and message, to its mux on every path (no message is answered or dropped in front of the gate). R3 is decided at the call sites that supply the values when the construction is wrapped in helpers (parameters lifted to their only library call site). " +
+			"R1 also: a gate value that is converted on to another func type (ServeMux.HandleFunc takes a HandlerFunc) has lost the gate's ServeDIAM and counts as not gated. " +
 			"Not decided: message histories as executions, the dispatch precedence (C09), applications that call smpeer.NewContext themselves.",
 		Rules: map[string]string{
 			"R1": "each ServeMux registration in package sm: handler is built-in or passes through the gate type; sm.mux does not escape",
